@@ -331,11 +331,20 @@ class ReadOne3d(Obligation):
         'offset of the record it was positioned on)',)
     any_violation_confirms = True
 
-    def __init__(self, nz, T, rows, cols, step=100):
+    FORMATS = {
+        'one3d': ('PseudoNetCDF.camxfiles.one3d.Read', 'one3d',
+                  'PseudoNetCDF.camxfiles.one3d.Memmap', 'one3d'),
+        'height_pressure': (
+            'PseudoNetCDF.camxfiles.height_pressure.Read', 'height_pressure',
+            'PseudoNetCDF.camxfiles.height_pressure.Memmap',
+            'height_pressure'),
+    }
+
+    def __init__(self, nz, T, rows, cols, step=100, fmt='one3d'):
         self.nz, self.T, self.rows, self.cols = nz, T, rows, cols
-        self.step = step
-        self.name = 'read-one3d[nz=%d,T=%d,rows=%d,cols=%d,step=%d]' % (
-            nz, T, rows, cols, step)
+        self.step, self.fmt = step, fmt
+        self.name = 'read-%s[nz=%d,T=%d,rows=%d,cols=%d,step=%d]' % (
+            fmt, nz, T, rows, cols, step)
         self.bounds = {'nz': nz, 'T': T, 'rows': rows, 'cols': cols,
                        'step (HHMM)': step,
                        'start': 'any day 1..300 of any year, any hour'}
@@ -352,22 +361,26 @@ class ReadOne3d(Obligation):
                 dest[...] = rf.record_start
                 return None
             ffu.read_into = read_into
-            rd = self._space.twin('PseudoNetCDF.camxfiles.one3d.Read')
+            rd = self._space.twin(self.FORMATS[self.fmt][0])
             if 'read_into' in rd.__dict__:
                 rd.read_into = read_into
         return self._space
+
+    def _mk_layout(self, date0, time0):
+        return layouts.MetLayout(self.fmt, self.nz, self.T,
+                                 self.rows * self.cols, date0, time0,
+                                 self.step)
 
     def _layout(self, ctx):
         date0 = ctx.int('date0', 1001, 99300)
         h0 = ctx.int('h0', 0, 23)
         ctx.assume(date0.e % 1000 >= 1, check=False)
         ctx.assume(date0.e % 1000 <= 300, check=False)
-        return layouts.One3dLayout(self.nz, self.T, self.rows * self.cols,
-                                   date0, h0 * 100, self.step)
+        return self._mk_layout(date0, h0 * 100)
 
     def sym(self, ctx, h):
         sp = self.space()
-        Read = sp.twin('PseudoNetCDF.camxfiles.one3d.Read')
+        Read = sp.twin(self.FORMATS[self.fmt][0])
         lay = self._layout(ctx)
         f = layouts.SymFile(ctx, lay)
         f.eof_raises = True
@@ -375,7 +388,8 @@ class ReadOne3d(Obligation):
         sys.setprofile(sp.profile())
         try:
             try:
-                rd = Read.one3d(f, self.rows, self.cols)
+                rd = getattr(Read, self.FORMATS[self.fmt][1])(
+                    f, self.rows, self.cols)
             except Exception as ex:
                 h.candidate('open-raised:' + type(ex).__name__,
                             repr(ex)[:200])
@@ -397,24 +411,28 @@ class ReadOne3d(Obligation):
                 h.claim('time[%d]' % ti, z3.And(
                     symx._b(d == lay.times[ti][0]),
                     symx._b(t == lay.times[ti][1])))
-            try:
-                v = rd.variables[rd.var_name]
-            except Exception as ex:
-                h.candidate('var:raised:' + type(ex).__name__, repr(ex)[:160])
-                return
-            want = (self.T, self.nz, self.rows, self.cols)
-            h.claim('var:shape', z3.BoolVal(tuple(v.shape) == want))
-            if tuple(v.shape) != want:
-                return
-            arr = np.asarray(v)
-            for ti in range(self.T):
-                for k in range(self.nz):
-                    cells = [symx._b(arr[ti, k, j, i] ==
-                                     lay.data_record(ti, k + 1))
-                             for j in range(self.rows)
-                             for i in range(self.cols)]
-                    h.claim('var:from-record[t=%d,k=%d]' % (ti, k + 1),
-                            z3.And(*cells))
+            for vname in sorted(set(v for v, _ in lay.seq)):
+                try:
+                    v = rd.variables[vname]
+                except Exception as ex:
+                    h.candidate('var:raised:' + type(ex).__name__,
+                                repr(ex)[:160])
+                    return
+                want = (self.T, self.nz, self.rows, self.cols)
+                h.claim('var[%s]:shape' % vname,
+                        z3.BoolVal(tuple(v.shape) == want))
+                if tuple(v.shape) != want:
+                    return
+                arr = np.asarray(v)
+                for ti in range(self.T):
+                    for k in range(self.nz):
+                        ri = lay.seq.index((vname, k))
+                        start = ti * lay.B + ri * lay.P
+                        cells = [symx._b(arr[ti, k, j, i] == start)
+                                 for j in range(self.rows)
+                                 for i in range(self.cols)]
+                        h.claim('var[%s]:from-record[t=%d,k=%d]' % (
+                            vname, ti, k + 1), z3.And(*cells))
         finally:
             sys.setprofile(None)
 
@@ -425,21 +443,24 @@ class ReadOne3d(Obligation):
         import warnings
         date0 = int(frac_of(inputs.get('date0', 2001)))
         h0 = int(frac_of(inputs.get('h0', 0)))
-        lay = layouts.One3dLayout(self.nz, self.T, self.rows * self.cols,
-                                  date0, h0 * 100, self.step)
+        lay = self._mk_layout(date0, h0 * 100)
+        vnames = sorted(set(v for v, _ in lay.seq))
         viol = {}
         d = tempfile.mkdtemp(prefix='verif_c13_')
-        path = os.path.join(d, 'f.one3d')
+        path = os.path.join(d, 'f.met')
         try:
-            data = lay.write_real(path, self.rows, self.cols)
+            data = lay.write_fields(path, self.rows, self.cols)
             with warnings.catch_warnings():
                 warnings.simplefilter('ignore')
-                from PseudoNetCDF.camxfiles.one3d.Read import one3d as RD
-                from PseudoNetCDF.camxfiles.one3d.Memmap import one3d as MM
+                import importlib
+                fm = self.FORMATS[self.fmt]
+                RD = getattr(importlib.import_module(fm[0]), fm[1])
+                MM = getattr(importlib.import_module(fm[2]), fm[3])
                 mv = None
                 try:
                     mm = MM(path, self.rows, self.cols)
-                    mv = np.asarray(mm.variables['UNKNOWN'])
+                    mv = dict((k, np.asarray(mm.variables[k]))
+                              for k in vnames)
                     mt = np.asarray(mm.variables['TFLAG'])[:, 0, :]
                 except Exception as ex:
                     viol['memmap-raised'] = repr(ex)[:200]
@@ -456,17 +477,20 @@ class ReadOne3d(Obligation):
                         viol['layers'] = 'Read reports %r layers, file has ' \
                             '%d' % (rd.nlayers, self.nz)
                     try:
-                        rv = np.asarray(rd.variables['UNKNOWN'])
-                        if rv.shape != data.shape or \
-                                not np.array_equal(rv, data):
-                            viol['var:from-record[t=*,k=*]'] = \
-                                'record reader data differ from the ' \
-                                'encoded data'
-                        if mv is not None and (
-                                mv.shape != rv.shape or
-                                not np.array_equal(mv, rv)):
-                            viol['readers-differ'] = \
-                                'memmap and record readers differ'
+                        for k in vnames:
+                            rv = np.asarray(rd.variables[k])
+                            if k == 'SURFTEMP' and rv.ndim == 4:
+                                rv = rv[:, 0]       # length-1 SURF axis
+                            if rv.shape != data[k].shape or \
+                                    not np.array_equal(rv, data[k]):
+                                viol['var[%s]:from-record[t=*,k=*]' % k] = \
+                                    'record reader data differ from the ' \
+                                    'encoded data'
+                            if mv is not None and (
+                                    mv[k].shape != rv.shape or
+                                    not np.array_equal(mv[k], rv)):
+                                viol['readers-differ'] = \
+                                    'memmap and record readers differ'
                     except Exception as ex:
                         viol['var:raised:' + type(ex).__name__] = \
                             repr(ex)[:200]
@@ -484,6 +508,230 @@ class ReadOne3d(Obligation):
                                 viol['time[%d]' % ti] = \
                                     'memmap TFLAG %r, record reader %r' % (
                                         mt[ti].tolist(), (dd, tt))
+        finally:
+            for fn in os.listdir(d):
+                os.remove(os.path.join(d, fn))
+            os.rmdir(d)
+        return {'obs': {'T': self.T}, 'violations': viol,
+                'file': {'date0': date0, 'h0': h0}}
+
+
+class ReadTemperature(ReadOne3d):
+    """temperature record reader: structure discovery with RecordFile
+    (layer count by scanning, end time from the last record via previous()),
+    data through np.memmap at byte positions it computes -- the memmap stub
+    returns, for each mapped word, its byte offset in the file, so every
+    exposed cell is traced to the byte it came from"""
+    stubs = ReadUamiv.stubs + (
+        'np.memmap(name, dtype, mode, offset, shape) (array of the byte '
+        'offsets of the mapped words)',)
+    FORMATS = dict(ReadOne3d.FORMATS)
+    FORMATS['temperature'] = (
+        'PseudoNetCDF.camxfiles.temperature.Read', 'temperature',
+        'PseudoNetCDF.camxfiles.temperature.Memmap', 'temperature')
+
+    def __init__(self, nz, T, rows, cols, step=100):
+        ReadOne3d.__init__(self, nz, T, rows, cols, step, 'temperature')
+
+    def sym(self, ctx, h):
+        sp = self.space()
+        Read = sp.twin(self.FORMATS[self.fmt][0])
+        lay = self._layout(ctx)
+        f = layouts.SymFile(ctx, lay)
+        f.eof_raises = True
+
+        def memmap(name, dtype='>f', mode='r', offset=0, shape=None):
+            n = int(shape[0]) if isinstance(shape, (tuple, list)) else \
+                int(shape)
+            a = np.empty(n, dtype=object)
+            for w in range(n):
+                a[w] = offset + 4 * w
+            from verifx import shim
+            return a.view(shim.SymNDArray)
+        Read.memmap = memmap
+        import sys
+        sys.setprofile(sp.profile())
+        try:
+            try:
+                rd = Read.temperature(f, self.rows, self.cols)
+            except Exception as ex:
+                h.candidate('open-raised:' + type(ex).__name__,
+                            repr(ex)[:200])
+                return
+            h.claim('layers', symx._b(rd.nlayers == self.nz))
+            h.claim('step-count', symx._b(rd.time_step_count == self.T))
+            h.claim('cells', symx._b(rd.cell_count == self.rows * self.cols))
+            h.observe('T', rd.time_step_count)
+            times = []
+            it = rd.timerange()
+            for _ in range(self.T + 2):
+                try:
+                    times.append(next(it))
+                except StopIteration:
+                    break
+            h.claim('time-iteration-terminates',
+                    z3.BoolVal(len(times) == self.T))
+            for ti, (d, t) in enumerate(times[:self.T]):
+                h.claim('time[%d]' % ti, z3.And(
+                    symx._b(d == lay.times[ti][0]),
+                    symx._b(t == lay.times[ti][1])))
+            for vname in ('SURFTEMP', 'AIRTEMP'):
+                try:
+                    v = rd.variables[vname]
+                except Exception as ex:
+                    h.candidate('var:raised:' + type(ex).__name__,
+                                repr(ex)[:160])
+                    return
+                nk = 1 if vname == 'SURFTEMP' else self.nz
+                want = (self.T, nk, self.rows, self.cols)
+                h.claim('var[%s]:shape' % vname,
+                        z3.BoolVal(tuple(v.shape) == want))
+                if tuple(v.shape) != want:
+                    return
+                arr = np.asarray(v)
+                for ti in range(self.T):
+                    for k in range(nk):
+                        ri = lay.seq.index(
+                            (vname, None if vname == 'SURFTEMP' else k))
+                        start = ti * lay.B + ri * lay.P + 12
+                        cells = [symx._b(
+                            arr[ti, k, j, i] ==
+                            start + 4 * (j * self.cols + i))
+                            for j in range(self.rows)
+                            for i in range(self.cols)]
+                        h.claim('var[%s]:from-bytes[t=%d,k=%d]' % (
+                            vname, ti, k + 1), z3.And(*cells))
+        finally:
+            sys.setprofile(None)
+
+    def real(self, inputs):
+        r = ReadOne3d.real(self, inputs)
+        return r
+
+
+class ReadWindRec(ReadOne3d):
+    """wind record reader on a symbolic record file (one-word dummy record,
+    at least two cells per layer)"""
+    FORMATS = {'wind': ('PseudoNetCDF.camxfiles.wind.Read', 'wind',
+                        'PseudoNetCDF.camxfiles.wind.Memmap', 'wind')}
+
+    def __init__(self, nz, T, rows, cols, step=100):
+        ReadOne3d.__init__(self, nz, T, rows, cols, step, 'wind')
+
+    def _mk_layout(self, date0, time0):
+        return layouts.WindLayout(self.nz, self.T, self.rows * self.cols, 1,
+                                  date0, time0, True, self.step)
+
+    def sym(self, ctx, h):
+        sp = self.space()
+        Read = sp.twin(self.FORMATS[self.fmt][0])
+        lay = self._layout(ctx)
+        f = layouts.SymFile(ctx, lay)
+        f.eof_raises = True
+        import sys
+        sys.setprofile(sp.profile())
+        try:
+            try:
+                rd = Read.wind(f, self.rows, self.cols)
+            except Exception as ex:
+                h.candidate('open-raised:' + type(ex).__name__,
+                            repr(ex)[:200])
+                return
+            h.claim('layers', symx._b(rd.nlayers == self.nz))
+            h.claim('step-count', symx._b(rd.time_step_count == self.T))
+            h.claim('cells', symx._b(rd.cell_count == self.rows * self.cols))
+            h.observe('T', rd.time_step_count)
+            times = []
+            it = rd.timerange()
+            for _ in range(self.T + 2):
+                try:
+                    times.append(next(it))
+                except StopIteration:
+                    break
+            h.claim('time-iteration-terminates',
+                    z3.BoolVal(len(times) == self.T))
+            for ti, (d, t) in enumerate(times[:self.T]):
+                h.claim('time[%d]' % ti, z3.And(
+                    symx._b(d == lay.times[ti][0]),
+                    symx._b(t == lay.times[ti][1])))
+            for ui, vname in enumerate(('U', 'V')):
+                try:
+                    v = rd.variables[vname]
+                except Exception as ex:
+                    h.candidate('var:raised:' + type(ex).__name__,
+                                repr(ex)[:160])
+                    return
+                want = (self.T, self.nz, self.rows, self.cols)
+                h.claim('var[%s]:shape' % vname,
+                        z3.BoolVal(tuple(v.shape) == want))
+                if tuple(v.shape) != want:
+                    return
+                arr = np.asarray(v)
+                for ti in range(self.T):
+                    for k in range(self.nz):
+                        start = lay.data_record(ti, k, ui)
+                        cells = [symx._b(arr[ti, k, j, i] == start)
+                                 for j in range(self.rows)
+                                 for i in range(self.cols)]
+                        h.claim('var[%s]:from-record[t=%d,k=%d]' % (
+                            vname, ti, k + 1), z3.And(*cells))
+        finally:
+            sys.setprofile(None)
+
+    def real(self, inputs):
+        import os
+        import tempfile
+        import warnings
+        date0 = int(frac_of(inputs.get('date0', 2001)))
+        h0 = int(frac_of(inputs.get('h0', 0)))
+        lay = self._mk_layout(date0, h0 * 100)
+        viol = {}
+        d = tempfile.mkdtemp(prefix='verif_c13_')
+        path = os.path.join(d, 'f.wind')
+        try:
+            data = lay.write_real(path, self.rows, self.cols)
+            with warnings.catch_warnings():
+                warnings.simplefilter('ignore')
+                from PseudoNetCDF.camxfiles.wind.Read import wind as RD
+                from PseudoNetCDF.camxfiles.wind.Memmap import wind as MM
+                mv = None
+                try:
+                    mm = MM(path, self.rows, self.cols)
+                    mv = dict((k, np.asarray(mm.variables[k])) for k in 'UV')
+                except Exception as ex:
+                    viol['memmap-raised'] = repr(ex)[:200]
+                try:
+                    rd = RD(path, self.rows, self.cols)
+                except Exception as ex:
+                    viol['open-raised:' + type(ex).__name__] = repr(ex)[:200]
+                    rd = None
+                if rd is not None:
+                    if rd.time_step_count != self.T:
+                        viol['step-count'] = 'Read reports %r steps, file ' \
+                            'has %d' % (rd.time_step_count, self.T)
+                    if rd.nlayers != self.nz:
+                        viol['layers'] = 'Read reports %r layers, file has ' \
+                            '%d' % (rd.nlayers, self.nz)
+                    try:
+                        for k in 'UV':
+                            rv = np.asarray(rd.variables[k])
+                            if rv.shape != data[k].shape or \
+                                    not np.array_equal(rv, data[k]):
+                                viol['var[%s]:from-record[t=*,k=*]' % k] = \
+                                    'record reader data differ from the ' \
+                                    'encoded data'
+                            if mv is not None and (
+                                    mv[k].shape != rv.shape or
+                                    not np.array_equal(mv[k], rv)):
+                                viol['readers-differ'] = \
+                                    'memmap and record readers differ'
+                    except Exception as ex:
+                        viol['var:raised:' + type(ex).__name__] = \
+                            repr(ex)[:200]
+                    ts = list(rd.timerange())
+                    if len(ts) != self.T:
+                        viol['time-iteration-terminates'] = \
+                            '%d times iterated' % len(ts)
         finally:
             for fn in os.listdir(d):
                 os.remove(os.path.join(d, fn))
@@ -523,4 +771,16 @@ def obligations(tier):
                 (1, 3, 1, 1, 2400)]
     for g in one:
         obs.append(ReadOne3d(*g))
+    hp = [(1, 2, 1, 1), (2, 3, 1, 2), (2, 2, 2, 1), (1, 4, 1, 1, 1200)]
+    if tier == 'thorough':
+        hp += [(3, 2, 2, 2), (2, 4, 1, 1, 600), (1, 6, 1, 1, 1200)]
+    for g in hp:
+        obs.append(ReadOne3d(*g, fmt='height_pressure'))
+    for g in hp:
+        obs.append(ReadTemperature(*g))
+    wd = [(1, 2, 1, 2), (2, 3, 1, 2), (2, 2, 2, 2), (1, 4, 1, 2, 1200)]
+    if tier == 'thorough':
+        wd += [(3, 2, 2, 2), (2, 4, 1, 4, 600), (1, 6, 1, 2, 1200)]
+    for g in wd:
+        obs.append(ReadWindRec(*g))
     return obs
